@@ -538,6 +538,22 @@ def apply(ex, ctx, st, f, args, dest_ty, term):
         a = mk_cast(ex.load(st, args[0]), 'u8')
         b = mk_cast(ex.load(st, args[1]), 'u8')
         return lex_cmp(ex, a, b), st
+    if path in ('core::cmp::Ordering::then', 'core::cmp::Ordering::then_with'):
+        eq_ = ordering(ex, 'Equal')
+        if name == 'then':
+            return map_ite(args[0], lambda l: args[1] if l is eq_ else l), st
+
+        def tw(l):
+            nonlocal st
+            if l is not eq_:
+                return l
+            r, st = call_closure(ex, ctx, st, args[1], [])
+            return r
+        return gmap(ex, args[0], tw), st
+    if path in ('core::cmp::Ordering::is_lt', 'core::cmp::Ordering::is_le', 'core::cmp::Ordering::is_gt', 'core::cmp::Ordering::is_ge',
+                'core::cmp::Ordering::is_eq', 'core::cmp::Ordering::is_ne'):
+        sets_ = {'is_lt': ('Less',), 'is_le': ('Less', 'Equal'), 'is_gt': ('Greater',), 'is_ge': ('Greater', 'Equal'), 'is_eq': ('Equal',), 'is_ne': ('Less', 'Greater')}[name]
+        return map_ite(args[0], lambda l: C(1 if pdb.variant_name(ORDERING, l[1][2]) in sets_ else 0, 'bool')), st
     if path == 'core::cmp::Ordering::reverse':
         o = args[0]
         return map_ite(o, lambda l: ordering(ex, {'Less': 'Greater', 'Greater': 'Less', 'Equal': 'Equal'}[pdb.variant_name(ORDERING, l[1][2])])), st
@@ -904,7 +920,16 @@ def apply(ex, ctx, st, f, args, dest_ty, term):
         if arr[0] != 'agg':
             raise Uncertified("sort of %s" % arr[0])
         check_int_elems(arr)
-        direction, st = comparator_direction(ex, ctx, st, args[1], ty_of(arr[2][0]), by_key=name.endswith('by_key'))
+        try:
+            n_ob_ = len(ex.obligations)
+            direction, st = comparator_direction(ex, ctx, st, args[1], ty_of(arr[2][0]), by_key=name.endswith('by_key'))
+        except Uncertified:
+            del ex.obligations[n_ob_:]
+            if len(arr[2]) > 8:
+                raise
+            out_, st = general_sort(ex, ctx, st, arr, args[1], name.endswith('by_key'))
+            ex.store(st, args[0], out_)
+            return UNIT, st
         ex.store(st, args[0], sorted_array(arr, descending=(direction == 'desc')))
         return UNIT, st
     if path == 'core::slice::<impl [T]>::reverse':
@@ -1491,6 +1516,56 @@ def check_eq_is_structural(ex, a):
     elif a[0] == 'ite':
         check_eq_is_structural(ex, a[2])
         check_eq_is_structural(ex, a[3])
+
+
+def general_sort(ex, ctx, st, arr, clos, by_key):
+    """A (stable) sort of a short array under an arbitrary key function or comparator: element i goes to position
+    rank_i = #{j : x_j sorts before x_i}, where x_j sorts before x_i when it compares Less, or compares Equal and
+    stands earlier.  (The unstable library sorts may order equal-key elements differently; the stable order is one of
+    their admissible results.)  The comparator is assumed to be a total preorder; rules that need more than that must
+    check the output themselves."""
+    elems = list(arr[2])
+    n = len(elems)
+    less_name = ex.pdb.variant_index(ORDERING, 'Less')
+
+    def is_less(o):
+        return map_ite(o, lambda l: C(1 if (l[0] == 'agg' and l[1][2] == less_name) else 0, 'bool'))
+    less = {}
+    if by_key:
+        keys = []
+        for x in elems:
+            rx = ex.new_tmp(st, x)
+            kx, st = call_closure(ex, ctx, st, clos, [rx])
+            while kx[0] == 'ref':
+                kx = ex.load(st, kx)
+            keys.append(kx)
+        for i in range(n):
+            for j in range(n):
+                if i != j:
+                    less[(i, j)] = is_less(lex_cmp(ex, keys[i], keys[j]))
+    else:
+        for i in range(n):
+            for j in range(n):
+                if i != j:
+                    ri, rj = ex.new_tmp(st, elems[i]), ex.new_tmp(st, elems[j])
+                    o, st = call_closure(ex, ctx, st, clos, [ri, rj])
+                    less[(i, j)] = is_less(o)
+    ranks = []
+    for i in range(n):
+        r = C(0, 'usize')
+        for j in range(n):
+            if j == i:
+                continue
+            before = less[(j, i)] if j > i else mk_or(less[(j, i)], mk_not(less[(i, j)]))
+            r = mk_bin('Add', r, mk_ite(before, C(1, 'usize'), C(0, 'usize')), 'usize', 'usize')
+        ranks.append(r)
+    out = []
+    for k in range(n):
+        v = elems[n - 1]
+        for i in range(n - 2, -1, -1):
+            v = mk_ite(mk_bin('Eq', ranks[i], C(k, 'usize'), 'usize', 'bool'), elems[i], v)
+        out.append(v)
+    return mk('agg', arr[1], tuple(out)), st
 
 
 def comparator_direction(ex, ctx, st, clos, ety, by_key=False):
